@@ -4,6 +4,7 @@ import (
 	"context"
 	"os"
 	"os/signal"
+	"sync"
 	"syscall"
 
 	"github.com/internetarchive/Zeno/internal/pkg/log"
@@ -11,14 +12,30 @@ import (
 
 var signalWatcherCtx, signalWatcherCancel = context.WithCancel(context.Background())
 
+var (
+	signalChan       = make(chan os.Signal, 1)
+	listenSignalOnce sync.Once
+)
+
+// listenSignals registers the shutdown signals. It is called before the pipeline
+// is started: a SIGINT/SIGTERM that arrives while the stages are still being
+// started (or while the command-line seeds are still being inserted) stays queued
+// until WatchSignals handles it gracefully, instead of killing the process with
+// its WARC files left open.
+func listenSignals() {
+	listenSignalOnce.Do(func() {
+		signal.Notify(signalChan, syscall.SIGINT, syscall.SIGTERM)
+	})
+}
+
 // WatchSignals listens for OS signals and handles them gracefully
 func WatchSignals() {
 	logger := log.NewFieldedLogger(&log.Fields{
 		"component": "controler.signalWatcher",
 	})
-	// Handle OS signals for graceful shutdown
-	signalChan := make(chan os.Signal, 1)
-	signal.Notify(signalChan, syscall.SIGINT, syscall.SIGTERM)
+	// Handle OS signals for graceful shutdown (the channel is registered by
+	// listenSignals before the pipeline starts, see Start)
+	listenSignals()
 
 	select {
 	case <-signalWatcherCtx.Done():
